@@ -375,7 +375,7 @@ def run(ctx, prog):
                 continue
             r = flow.render(of_.of_operand(c.args[0]))
             m = re.search(r'arg:self→MetadataInvertedIndex\.(\w+)', r)
-            if not m or m.group(1) == 'alive':
+            if not m:
                 continue
             doc = flow.render(of_.of_operand(c.args[1])) if len(c.args) > 1 else ''
             must = set()
@@ -387,7 +387,7 @@ def run(ctx, prog):
     if ins is not None and rem is not None:
         pi = _postings(ins, 'insert')
         pr = _postings(rem, 'remove')
-        ctx.inst('C11.R4', 'MetadataInvertedIndex', 'insert_doc and remove_doc maintain the same posting structures', sorted(pi) == sorted(pr) and len(pi) >= 4,
+        ctx.inst('C11.R4', 'MetadataInvertedIndex', 'insert_doc and remove_doc maintain the same posting structures', sorted(pi) == sorted(pr) and len(pi) >= 5,
                  'insert_doc: %s; remove_doc: %s' % (sorted(pi), sorted(pr)))
         for f in sorted(set(pi) | set(pr)):
             ci = set(m for _, m, _ in pi.get(f, []))
